@@ -351,6 +351,14 @@ FIXED_TUPLES = [
     {"id": "fx-test-suite", "kind": "tuple", "family": "poly-only",
      "cfs": [["v", "1"], ["w", "1"], ["x", "n/2 + 1"], ["y", "n/2 + 1"]], "special": 0},
     {"id": "fx-none", "kind": "tuple", "family": "2,3", "cfs": [["x", "2**n + 1"], ["y", "n"]], "special": 0},
+    # relations whose negative-exponent lattice vectors are not degree-compatible (elimination order matters), and primes with
+    # proportional multiplicities followed by another prime (rank-deficient integer kernel) -- seeded changes C07_D, C06_D/C16_D
+    {"id": "fx-2-8", "kind": "tuple", "family": "2,8", "cfs": [["x", "2**n"], ["y", "8**n"]], "special": 0},
+    {"id": "fx-2-8-32", "kind": "tuple", "family": "2,8,32", "cfs": [["x", "2**n"], ["y", "8**n"], ["z", "32**n"]], "special": 0},
+    {"id": "fx-mhalf-2", "kind": "tuple", "family": "-1/2,2", "cfs": [["x", "Rational(-1,2)**n"], ["y", "2**n"]], "special": 0},
+    {"id": "fx-6-30-5", "kind": "tuple", "family": "6,30,5", "cfs": [["x", "6**n"], ["y", "30**n"], ["z", "5**n"]], "special": 0},
+    {"id": "fx-10-1/10-3-1/9", "kind": "tuple", "family": "-10,1/10,3,1/9",
+     "cfs": [["x", "(-10)**n"], ["y", "Rational(1,10)**n"], ["z", "3**n"], ["w", "Rational(1,9)**n"]], "special": 0},
     {"id": "fx-special", "kind": "tuple", "family": "2,4,8",
      "cfs": [["x", "Piecewise((7, n <= 0), (2**n, True))"], ["y", "4**n"]], "special": 1},
 ]
